@@ -7,6 +7,7 @@ import (
 	"os"
 	"path/filepath"
 	"reflect"
+	"strings"
 
 	oci "github.com/opencontainers/runtime-spec/specs-go"
 	"golang.org/x/sys/unix"
@@ -400,6 +401,32 @@ func (applyStream) Execute(c Case) {
 		if r := recover(); r != nil {
 			obs["panic"] = true
 		}
+	}()
+	// a prelude on a scratch copy of the OCI spec: the same edit object is applied there first, then foreign edits
+	// overwrite what it set (another RDT class, the same variables, paths and destinations with other values).
+	// Applying edits must not tie the edit object to the OCI spec it was applied to: the application below -
+	// the one that is observed - is that of the edits as given
+	func() {
+		defer func() { _ = recover() }()
+		var scratch oci.Spec
+		_ = json.Unmarshal([]byte(c["ocijson"].(string)), &scratch)
+		if (&cdi.ContainerEdits{ContainerEdits: &e}).Apply(&scratch) != nil {
+			return
+		}
+		foreign := specs.ContainerEdits{Env: []string{"FOREIGN=1"}, IntelRdt: &specs.IntelRdt{ClosID: "foreign-class", L3CacheSchema: "L3:0=1", EnableMBM: true},
+			AdditionalGIDs: []uint32{4242}, Hooks: []*specs.Hook{{HookName: "poststop", Path: "/bin/foreign"}}}
+		for _, ev := range e.Env {
+			if i := strings.IndexByte(ev, '='); i > 0 {
+				foreign.Env = append(foreign.Env, ev[:i]+"=foreign")
+			}
+		}
+		for _, m := range e.Mounts {
+			foreign.Mounts = append(foreign.Mounts, &specs.Mount{HostPath: "/foreign", ContainerPath: m.ContainerPath, Options: []string{"foreign"}})
+		}
+		for _, d := range e.DeviceNodes {
+			foreign.DeviceNodes = append(foreign.DeviceNodes, &specs.DeviceNode{Path: d.Path, Type: "c", Major: 77, Minor: 7, Permissions: "m"})
+		}
+		_ = (&cdi.ContainerEdits{ContainerEdits: &foreign}).Apply(&scratch)
 	}()
 	err := (&cdi.ContainerEdits{ContainerEdits: &e}).Apply(&o)
 	obs["err"] = err != nil
